@@ -39,16 +39,16 @@ NormB(h) == NormFrom(h, 1)
 
 Judge(c, D) ==
   LET cfg == c.cfg
-      res == [C06 |-> IF Want("C06") THEN P!Failing(P!C06_Clauses(cfg, D)) ELSE {},
+  IN \E res \in {[C06 |-> IF Want("C06") THEN P!Failing(P!C06_Clauses(cfg, D)) ELSE {},
               C07 |-> IF Want("C07") THEN P!Failing(P!C07_Clauses(cfg, D)) ELSE {},
               C08 |-> IF Want("C08") THEN P!Failing(P!C08_Clauses(cfg, D)) ELSE {},
               C09 |-> IF Want("C09") THEN P!Failing(P!C09_Clauses(cfg, D)) ELSE {},
               C11 |-> IF Want("C11") THEN P!Failing(P!C11_Clauses(cfg, D)) ELSE {},
               C02 |-> IF Want("C02") THEN P!Failing(P!C02B_Clauses(cfg, D)) ELSE {},
               C04 |-> IF Want("C04") THEN P!Failing(P!C04B_Clauses(cfg, D)) ELSE {},
-              C18 |-> IF Want("C18") THEN P!Failing(P!C18B_Clauses(cfg, D)) ELSE {}]
-      bad == {p \in DOMAIN res : res[p] # {}}
-  IN /\ \A p \in bad : PrintT(<<"FAIL", c.scn, p, res[p]>>)
+              C18 |-> IF Want("C18") THEN P!Failing(P!C18B_Clauses(cfg, D)) ELSE {}]} :
+     LET bad == {p \in DOMAIN res : res[p] # {}} IN
+     /\ \A p \in bad : PrintT(<<"FAIL", c.scn, p, res[p]>>)
      /\ (c.hasexp /\ NormB(c.exp) # NormB(c.h)) => PrintT(<<"DRIFT", c.scn>>)
 
 HitKeys == {"concurrent", "retried", "fallback", "stopmode", "failedItem", "skipped", "cancelled", "emptyBatch", "overlapped"}
@@ -59,10 +59,10 @@ Init == /\ i = 1
 Next ==
   /\ i <= Len(Trace)
   /\ i' = i + 1
-  /\ LET c == Trace[i]
-         D == P!Digest(c.cfg, c.h)
-         x == P!BatchHits(c.cfg, D)
-     IN /\ Judge(c, D)
+  \* TLC does not cache LET definitions while it evaluates an action: binding the digest with a
+  \* quantifier over a singleton set makes it a value that is computed once
+  /\ \E c \in {Trace[i]} : \E D \in {P!Digest(c.cfg, c.h)} : \E x \in {P!BatchHits(c.cfg, D)} :
+        /\ Judge(c, D)
         /\ stats' = [scenarios |-> stats.scenarios + 1, events |-> stats.events + Len(c.h),
                      hits |-> [k \in HitKeys |-> stats.hits[k] + (IF x[k] THEN 1 ELSE 0)]]
   /\ (i = Len(Trace) => PrintT(<<"SUMMARY", stats'>>))
